@@ -8,7 +8,9 @@ From ADV Require Import Base.Num C05.Model C05.Spec C05.ProofsBase C05.ProofsCho
                         C05.ProofsHouse2 C05.ProofsBlock C05.ProofsTrace C05.ProofsHess C05.ProofsGS
                         C05.ProofsLdl2 C05.ProofsChol2 C05.ProofsTridiag C05.ProofsBidiag C05.ProofsTridiag2 C05.ProofsOpts C05.ProofsBand C05.CorrTrace C05.ProofsTraceTie C05.Corr32
                         C05.ModelIter C05.SpecIter C05.ProofsIterSymSweep C05.ProofsIterSymLoop
-                        C05.ProofsIterFrSweep C05.ProofsIterFrLoop C05.ProofsIterSvdSweep C05.ProofsIterSvdLoop.
+                        C05.ProofsIterFrSweep C05.ProofsIterFrLoop C05.ProofsIterSvdSweep C05.ProofsIterSvdLoop
+                        C05.ModelEig C05.ProofsEig C05.ProofsEig2 C05.ProofsEigSort.
+From Coq Require Import Sorting.Permutation Sorting.Sorted.
 Import ListNotations.
 Open Scope R_scope.
 
@@ -604,6 +606,118 @@ Proof. exact (gksvd_reach_from_sweep gk_sweep_sound zero_row_sound). Qed.
 Theorem svd_exact_equivalence_without_deflation_tolerance :
   forall m n A0 A1, svd_reach 0 m n A0 A1 -> meq m n A1 A0.
 Proof. exact svd_reach_eps0. Qed.
+
+(* 10. EIGENSYSTEM (round 6; C05.ModelEig: getEigenvalues, backSubstitution, getEigenvector(s), the
+      insertion sort run by sort.Sort for n <= 12, the column interchange loop, eigensystem.Run on top of
+      the Francis model of section 9).  TIE: C05.CorrEig.echeck recomputes the WHOLE call from the input
+      on binary64 — eigenvalues, eigenvectors and what is left in inSitu.QrAlgorithm.H must be bit-equal
+      (fresh calls, empty and caller-supplied InSitu buffers, second runs of reuse histories,
+      ComputeEigenvectors / Symmetric / Epsilon options, Float64 and Real64).
+      THEOREMS, every size:
+      - back substitution solves the upper triangular system (it never reads below the diagonal);
+      - at a position k whose leading k+1 columns of the Schur form H are upper triangular and whose
+        eigenvalue H_kk is not repeated above k, the vector built by getEigenvector (shift, back
+        substitution, x_k = 1, zeros below) satisfies H x = H_kk x; h is restored exactly;
+      - transported by the orthogonal accumulator and normalised it is a UNIT eigenvector of
+        A = U H U^T for the eigenvalue H_kk (statement of the property: A v = lambda v);
+      - sortEigenvalues returns the pairs (value, index of origin) in decreasing magnitude, a
+        permutation of the input pairs: eigenvalue t of the result IS input entry p[t]. *)
+Theorem back_substitution_solves :
+  forall (k : nat) (Ak : rmat) (b : list R),
+  dims k k Ak -> length b = k -> (forall i, (i < k)%nat -> G Ak i i <> 0) ->
+  (forall i j, (j < i)%nat -> G Ak i j = 0) ->
+  length (backsub XR Ak b 0) = k /\
+  forall i, (i < k)%nat -> sum_n (fun j => G Ak i j * V (backsub XR Ak b 0) j) k = V b i.
+Proof. exact backsub_solves. Qed.
+
+Theorem back_substitution_reads_upper_part_only :
+  forall (k : nat) (Ak : rmat) (b : list R),
+  dims k k Ak -> length b = k -> (forall i, (i < k)%nat -> G Ak i i <> 0) ->
+  length (backsub XR Ak b 0) = k /\
+  forall i, (i < k)%nat ->
+    sum_n (fun c => G Ak i (i + c)%nat * V (backsub XR Ak b 0) (i + c)%nat) (k - i)%nat = V b i.
+Proof. exact backsub_solves_upper_part. Qed.
+
+Theorem eigenvector_of_schur_form :
+  forall (n k : nat) (H : rmat),
+  dims n n H -> (k < n)%nat ->
+  (forall i j, (j < i)%nat -> (j <= k)%nat -> G H i j = 0) ->
+  (forall i, (i < k)%nat -> G H i i <> G H k k) ->
+  let x := eig_x XR H (G H k k) k ++ 1 :: repeat 0 (n - k - 1)%nat in
+  length x = n /\ V x k = 1 /\
+  forall i, (i < n)%nat -> sum_n (fun j => G H i j * V x j) n = G H k k * V x i.
+Proof. exact eig_x_eigenvector. Qed.
+
+Theorem eigenvector_transported_is_unit_eigenvector :
+  forall (n : nat) (H U A : rmat) (x : list R) (lam : R),
+  dims n n U -> length x = n -> orth n (G U) -> meq n n (uhut n (G H, G U)) (G A) ->
+  (forall i, (i < n)%nat -> sum_n (fun j => G H i j * V x j) n = lam * V x i) ->
+  (exists k, (k < n)%nat /\ V x k <> 0) ->
+  let w := normalize XR (mdotv XR U x) in
+  length w = n /\
+  (forall i, (i < n)%nat -> sum_n (fun j => G A i j * V w j) n = lam * V w i) /\
+  sum_n (fun i => V w i * V w i) n = 1.
+Proof. exact transported_eigenvector. Qed.
+
+(* getEigenvector as coded, on a zero-initialised buffer column (fresh call): h is left as found and
+   the returned column is a unit eigenvector of A for the eigenvalue H_kk *)
+Theorem get_eigenvector_correct :
+  forall (n k : nat) (H U A : rmat),
+  dims n n H -> dims n n U -> (k < n)%nat ->
+  orth n (G U) -> meq n n (uhut n (G H, G U)) (G A) ->
+  (forall i j, (j < i)%nat -> (j <= k)%nat -> G H i j = 0) ->
+  (forall i, (i < k)%nat -> G H i i <> G H k k) ->
+  let r := eig_vector XR H U (G H k k) k (repeat 0 (n - k - 1)%nat) in
+  (forall i j, (i < n)%nat -> G (fst r) i j = G H i j) /\
+  length (snd r) = n /\
+  (forall i, (i < n)%nat -> sum_n (fun j => G A i j * V (snd r) j) n = G H k k * V (snd r) i) /\
+  sum_n (fun i => V (snd r) i * V (snd r) i) n = 1.
+Proof. exact eig_vector_correct. Qed.
+
+Theorem sort_eigenvalues_correct :
+  forall v : list R,
+  let sp := sort_pairs XR v in
+  Permutation sp (combine v (seq 0 (length v))) /\
+  StronglySorted (fun a b => Rabs (fst b) <= Rabs (fst a)) sp /\
+  Forall (fun q => (snd q < length v)%nat /\ fst q = nth (snd q) v 0) sp /\
+  Permutation (map snd sp) (seq 0 (length v)) /\
+  length sp = length v.
+Proof. exact sort_pairs_correct. Qed.
+
+(* eigensystem.Run without ComputeEigenvectors (/repo 8cb1afe, positive form of the retired finding
+   F-EIG-INSITU-NOVEC-PANIC): for every fuel, epsilon, input and Symmetric option the result does not depend
+   on an eigenvector buffer left in a recycled InSitu, and no eigenvectors are returned; a requested
+   qrAlgorithm.Epsilon is the epsilon of the QR algorithm (/repo ec5730f, retired F-EIG-EPSILON-DROPPED). *)
+Theorem eigensystem_without_eigenvectors_ignores_recycled_buffer :
+  forall (fuel : nat) (eps : R) (sym : bool) (A : rmat) (ev0 : list R) (E0 : option rmat),
+  eigensystem XR fuel eps false sym A ev0 E0 = eigensystem XR fuel eps false sym A ev0 None /\
+  forall vs ws H', eigensystem XR fuel eps false sym A ev0 E0 = Some (vs, ws, H') -> ws = None.
+Proof. exact eigensystem_novec_ignores_buffer. Qed.
+
+Theorem eigensystem_forwards_requested_epsilon :
+  forall d e : R, run_epsilon d (Some e) = e /\ run_epsilon d None = d.
+Proof. exact run_epsilon_requested. Qed.
+
+(* the interchange loop of sortEigensystem (cycle following) on binary64, ALL permutations of up to
+   five columns: column t of the result is column p[t] of the input (bounded: a regression example,
+   the statement for every n is not proved — see PARTIAL) *)
+Theorem sort_eigensystem_aligns_columns_upto_5_partial : C05.ProofsEigSort.perm_loop_checked_upto 5 = true.
+Proof. exact C05.ProofsEigSort.perm_loop_checked_5. Qed.
+
+(* non-vacuity: an upper triangular H with separated diagonal, U = I, A = H, position k = 1 *)
+Example eigenvector_hyps_satisfiable :
+  let H : rmat := [[1; 2]; [0; 3]] in let U : rmat := [[1; 0]; [0; 1]] in
+  dims 2 2 H /\ dims 2 2 U /\ orth 2 (G U) /\ meq 2 2 (uhut 2 (G H, G U)) (G H) /\
+  (forall i j, (j < i)%nat -> (j <= 1)%nat -> G H i j = 0) /\
+  (forall i, (i < 1)%nat -> G H i i <> G H 1 1) /\
+  (forall i, (i < 2)%nat -> G H i i <> 0).
+Proof. exact C05.ProofsEigSort.eig_hyps_example. Qed.
+
+(* the model at work on binary64 (the corpus witness "sort moves every column"): eigenvalues 1, -4, 2 of
+   an upper triangular matrix come back as -4, 2, 1 and the eigenvector columns follow *)
+Example eigensystem_sorts_by_magnitude :
+  C05.ProofsEigSort.eig_example_values = Some [(-4)%float; 2%float; 1%float].
+Proof. exact C05.ProofsEigSort.eig_example_values_ok. Qed.
 
 (* the hypotheses are satisfiable by a non-trivial instance *)
 Example cholesky_hyps_satisfiable :
